@@ -85,8 +85,6 @@ func (u *User) GetOTPs() string                 { return u.OTPs }
 func (u *User) PutOTPs(s string)                { u.OTPs = s }
 func (u *User) GetTOTPSecretKey() string        { return u.TOTPSecretKey }
 func (u *User) PutTOTPSecretKey(s string)       { u.TOTPSecretKey = s }
-func (u *User) GetTOTPLastCode() string         { return u.TOTPLastCode }
-func (u *User) PutTOTPLastCode(s string)        { u.TOTPLastCode = s }
 func (u *User) GetSMSPhoneNumber() string       { return u.SMSPhoneNumber }
 func (u *User) PutSMSPhoneNumber(s string)      { u.SMSPhoneNumber = s }
 func (u *User) GetRecoveryCodes() string        { return u.RecoveryCodes }
@@ -114,4 +112,23 @@ func (u *User) PutArbitrary(m map[string]string) {
 	if u.useUsername {
 		u.Email = m["email"]
 	}
+}
+
+// UserOT is the same record for applications that opt into TOTP replay protection
+// (totp2fa.UserOneTime); the plain *User does not implement that optional interface.
+type UserOT struct{ *User }
+
+func (u UserOT) GetTOTPLastCode() string  { return u.User.TOTPLastCode }
+func (u UserOT) PutTOTPLastCode(s string) { u.User.TOTPLastCode = s }
+
+func unwrapUser(u interface{}) *User {
+	switch v := u.(type) {
+	case *User:
+		return v
+	case UserOT:
+		return v.User
+	case *UserOT:
+		return v.User
+	}
+	panic("unknown user type")
 }
